@@ -49,7 +49,7 @@ header itself was consumed. DEX analogue ('dex:tail-map-combo'): map_list count 
 list x size / offset of the last complete map_item, file_size following or not, checksums re-fixed.
 
 Wide seeds ('wide' shards, labels '<fmt>:wide-seed:<shape>'): the seeds above are small, so a count that a parser loops
-over never gets large. One structure at a time is made wide - 1 200 / 2 500 / 5 000 / 20 000 items, everything else
+over never gets large. One structure at a time is made wide - 300 / 1 200 / 2 500 / 5 000 / 20 000 items, everything else
 minimal, the items really present in the bytes so that the budget (which follows the length) grows with them only
 linearly: AXML attributes of ONE element (name index valid and distinct / all equal / 0xFFFFFFFF / outside the pool,
 distinct and equal / an empty pool string / resolved through the resource map to unknown and to known ids; string
@@ -120,7 +120,7 @@ RULE = ('case = (target in dex/axml/arsc/apk, bytes) where bytes = a small valid
         'seeds; plus tail-chunk combinations for AXML / ARSC (chunk k made the last chunk: size 0..8 / around header '
         'size x header size x chunk type x bytes left to the end of the buffer 0..header+16, enclosing sizes consistent '
         'or not; systematic on generated minimal documents, drawn on all seeds; also inside an APK) and the map_list '
-        'analogue for DEX; plus wide seeds (one structure with 1 200 / 2 500 / 5 000 / 20 000 items: attributes of one '
+        'analogue for DEX; plus wide seeds (one structure with 300 / 1 200 / 2 500 / 5 000 / 20 000 items: attributes of one '
         'element with valid / equal / absent / out-of-pool name indices, children, namespaces, nesting, entries / configs / '
         'bag items / packages of a resource table, DEX id sections / classes / members / map items, zip members, signing-'
         'block pairs / signers / digests / certificates), unmodified and under wide mutations (a field of every item, the '
@@ -1888,7 +1888,7 @@ def _manifest_with_refs():
 # =====================================================================================================
 # wide seeds: ONE structure with thousands of items (a per-structure count is the only large thing in the input)
 # =====================================================================================================
-# Every per-structure count a parser loops over gets inputs in which that count is 1 200 / 2 500 / 5 000 / 20 000 while
+# Every per-structure count a parser loops over gets inputs in which that count is 300 / 1 200 / 2 500 / 5 000 / 20 000 while
 # everything else stays minimal, so that anything super-linear in the count, or any pool / table of fixed size that is
 # exhausted by it, shows against the same budget as everything else (max(5 s, 2 ms x len): the items are really
 # present in the bytes, so the budget grows with them - linearly). Built with the independent writers where they can
@@ -1896,7 +1896,7 @@ def _manifest_with_refs():
 # A seed = {'fmt', 'name', 'shape', 'n', 'data', 'arrays'}; arrays = [{'start', 'stride', 'count', 'fields' (offsets of
 # u32 fields inside an item), 'count_at' ((offset, width) of the declared count) | None, 'pool' (strings in the pool the
 # fields index)}] describe where the wide structure sits, for the wide mutations.
-WIDE_N = (1200, 2500, 5000, 20000)
+WIDE_N = (300, 1200, 2500, 5000, 20000)   # 300: small enough to be mutated cheaply (see _run_wide), still 10x the other seeds
 NOE = 0xffffffff
 
 
@@ -2105,7 +2105,7 @@ def wide_arsc(n, full=True, only=None):
             return R.make_config(language=lang, country=(chr(65 + (i // 676) % 26) * 2 if i >= 676 else ''))
         add('configs:locale', tab([{'name': 'string', 'entry_count': 1, 'chunks': [
             {'config': loc(i), 'offsets': '32', 'entries': [[0, plain(0, [R.TYPE_STRING, 'v%d' % i])]]} for i in range(n)]}]))
-    if n == WIDE_N[0]:
+    if n == 1200:
         # ResTable_typeSpec::id is one byte: 255 types is the widest package
         add('types', tab([{'name': 't%d' % i, 'entry_count': 1, 'chunks': [
             {'config': d, 'offsets': '32', 'entries': [[0, plain(i)]]}]} for i in range(255)]), 255)
@@ -2886,6 +2886,7 @@ def _run_wide(ctx, fmt):
     timed_out = set()
     pool = []
     quick = ctx.tier == 'quick'
+    pool_max = 32 * 1024 if quick else 400 * 1024
     strat = st.tuples(st.integers(0, 0xffff), st.integers(0, 4), st.integers(0, 0xffffffff), st.integers(0, 0xffffffff),
                       st.integers(0, 0xffff), st.integers(0, 99), st.integers(0, 11))
     done = [0]
@@ -2945,11 +2946,13 @@ def _run_wide(ctx, fmt):
                 ctx.label('wide:main-loop-saw-the-count')
             if res['outcome'] == 'timeout':
                 timed_out.add(s['shape'])
-            elif (n <= 5000 and len(s['data']) <= 400 * 1024 and res.get('cpu') is not None and res['cpu'] <= 1.0):
-                # mutation pool: cheap seeds (the few that the unchanged parsers need seconds for stay unmodified)
+            elif (n <= 5000 and len(s['data']) <= pool_max and res.get('cpu') is not None and res['cpu'] <= 1.0):
+                # mutation pool: cheap seeds (the few that the unchanged parsers need seconds for stay unmodified) and,
+                # in the quick tier, small ones: a time-out costs 4 x its budget of CPU (first pass + confirmation at
+                # 3x) and the budget follows the length - 32 KB bound that at ~4 min per shard on a tree that hangs
                 pool.append(s)
         if n <= 5000:
-            mutations((8, 4, 4)[WIDE_N.index(n)] * (1 if quick else 6), cap * 0.8)
+            mutations((4, 8, 4, 2)[WIDE_N.index(n)] * (1 if quick else 6), cap * 0.8)
     mutations(60 if quick else 600, cap)
     if _over_budget(ctx, cap):
         ctx.count('wide_budget_cut:' + fmt)
